@@ -19,6 +19,8 @@ func checkC04(p *Prog, r *Report) {
 	c04Transform(p, r)
 	c04LoadYear(p, r)
 	c04DayCounter(p, r)
+	c04StartOffset(p, r)
+	sentinelFallback(p, r, "C04.R8")
 }
 
 // ---------------------------------------------------------------- R1 weather errors propagate
@@ -737,4 +739,143 @@ func c04Expected(p *Prog, r *Report) {
 			r.Ob(short(key)+":year-label", "-", false, "the reader never labels its year slots")
 		}
 	}
+}
+
+// ---------------------------------------------------------------- R7 start offset
+
+// c04StartOffset: the first simulated day must read the record of the start
+// date.  The day loop advances the 0-based record index before it reads the
+// weather (R6), so Init has to leave it at (day of year of the start date) − 2,
+// whatever that value is: for a start on 1 January it is −1, and the advance
+// makes it 0.  A floor, cap or any other conditional definition shifts every
+// day of the run by one record for exactly those start dates.
+func c04StartOffset(p *Prog, r *Report) {
+	r.Rule("C04.R7", "start offset: Init sets the record index to (day of year of the start date) − 2 by one unconditional, unclamped definition; the day of year is the first result of the date conversion whose second result is the start day number", 3)
+	x := walked(p, "hermes.Init")
+	if x == nil {
+		r.Ob("Init", "-", false, "hermes.Init not found")
+		return
+	}
+	tag := "GlobalVarsMain.TAG.Index"
+	n := 0
+	for _, e := range x.Events {
+		if e.Kind != "assign" || e.Root != tag {
+			continue
+		}
+		n++
+		want := cellP("GlobalVarsMain.ITAG").Sub(PInt(2))
+		uncond := len(flattenGuards(e.Guards)) == 0 && len(e.Loops) == 0
+		ok := stripVersions(e.Val).Equal(want) && uncond
+		r.Ob("start:index", p.Pos(e.Pos), ok, fmt.Sprintf("record index at start = %s, unconditional: %v (must be ITAG − 2 with no floor or cap: the day loop advances it before the first read)", clip(e.Val.String(), 80), uncond))
+	}
+	if n != 1 {
+		r.Ob("start:index", "-", false, fmt.Sprintf("%d definitions of the record index in Init, expected exactly 1", n))
+	}
+	// source of ITAG: first result of the conversion of the start entry's date
+	fi := p.Funcs["hermes.Input"]
+	if fi == nil {
+		r.Ob("start:source", "-", false, "hermes.Input not found")
+		return
+	}
+	info := fi.Pkg.TypesInfo
+	m := 0
+	ast.Inspect(fi.Decl.Body, func(nd ast.Node) bool {
+		as, ok := nd.(*ast.AssignStmt)
+		if !ok || len(as.Lhs) != 1 || len(as.Rhs) != 1 {
+			return true
+		}
+		se, ok := as.Lhs[0].(*ast.SelectorExpr)
+		if !ok || se.Sel.Name != "ITAG" {
+			return true
+		}
+		m++
+		src, isId := as.Rhs[0].(*ast.Ident)
+		okSrc := false
+		detail := "ITAG is not assigned from a local"
+		if isId {
+			obj := info.Uses[src]
+			nDefs := 0
+			ast.Inspect(fi.Decl.Body, func(n2 ast.Node) bool {
+				t, ok := n2.(*ast.AssignStmt)
+				if !ok {
+					return true
+				}
+				for k, l := range t.Lhs {
+					lid, ok := l.(*ast.Ident)
+					if !ok || (info.Uses[lid] != obj && info.Defs[lid] != obj) {
+						continue
+					}
+					nDefs++
+					if k != 0 || len(t.Lhs) != 2 || len(t.Rhs) != 1 {
+						continue
+					}
+					call, ok := t.Rhs[0].(*ast.CallExpr)
+					if !ok {
+						continue
+					}
+					if fs, ok := call.Fun.(*ast.SelectorExpr); ok && fs.Sel.Name == "Datum" {
+						okSrc = true
+						detail = fmt.Sprintf("ITAG = %s, first result of %s (the second result is stored as %s)", src.Name, types.ExprString(call), types.ExprString(t.Lhs[1]))
+					}
+				}
+				return true
+			})
+			if nDefs != 1 {
+				okSrc = false
+				detail += fmt.Sprintf("; %d definitions of %s", nDefs, src.Name)
+			}
+		}
+		r.Ob("start:source", p.Pos(as.Pos()), okSrc, detail)
+		return true
+	})
+	if m == 0 {
+		r.Ob("start:source", "-", false, "no assignment of ITAG found in Input")
+	}
+}
+
+// ---------------------------------------------------------------- R8 sentinel cannot survive
+
+// sentinelFallback: for the series whose sentinel today's normalisation
+// removes on every path (sunshine hours, global radiation, precipitation), the
+// per-day loop ends with "if X == sentinel { X = 0 }" that depends on nothing
+// but the loops and the value itself.  Without it an interior gap of two or
+// more days keeps the sentinel (e.g. −99.9 h of sunshine), which the radiation
+// estimate turns into a negative potential evapotranspiration.
+func sentinelFallback(p *Prog, r *Report, rule string) {
+	r.Rule(rule, "missing-value sentinels cannot reach the model in sunshine hours, global radiation and precipitation: the normalisation ends, for every day of every loaded year, with an unconditional 'if value == sentinel { value = 0 }' of the same cell", 3)
+	x := walked(p, "hermes.WeatherDataShared.replaceMissingValues")
+	if x == nil {
+		r.Ob("replaceMissingValues", "-", false, "replaceMissingValues not found")
+		return
+	}
+	for _, root := range []string{"SUND", "RADI", "REG"} {
+		found := false
+		pos := "-"
+		for _, e := range x.Events {
+			if e.Kind != "assign" || len(e.Idx) != 2 || len(e.Loops) != 2 || !e.Val.IsZero() || !strings.HasSuffix(e.Root, "."+root) && e.Root != "s."+root {
+				continue
+			}
+			if !e.Idx[0].Equal(PAtom(e.Loops[0].Var)) || !e.Idx[1].Equal(PAtom(e.Loops[1].Var)) {
+				continue
+			}
+			var non []*Cond
+			for _, g := range flattenGuards(e.Guards) {
+				if !g.Loop {
+					non = append(non, g)
+				}
+			}
+			if len(non) != 1 || non[0].Kind != "cmp" || non[0].Op != token.EQL {
+				continue
+			}
+			// sentinel − X[y][index] == 0 on the cell being stored
+			d := stripVersions(non[0].P)
+			want := pVar("noneValue").Sub(stripVersions(e.Old))
+			if d.Equal(want) || d.Equal(want.Neg()) {
+				found = true
+				pos = p.Pos(e.Pos)
+			}
+		}
+		r.Ob("fallback:"+root, pos, found, fmt.Sprintf("%s[y][day]: final fallback 'sentinel → 0' that depends only on the value itself: %v", root, found))
+	}
+	r.Note("mean air temperature and saturation deficit have no such fallback on this tree: two consecutive missing days keep the sentinel (observation, not claimed)")
 }
